@@ -304,6 +304,14 @@ impl World {
                     SubjectVia::KeyPair => guarded(|| params.signed_by(&sk.kp, &iss.cert, &ik.kp)),
                     #[cfg(feature = "x509-parser")]
                     SubjectVia::Spki => guarded(|| {
+                        // the entry point (DER or PEM) alternates with a bit of the recipe
+                        #[cfg(feature = "pem")]
+                        let spki = if recipe.not_after & 1 == 1 {
+                            rcgen::SubjectPublicKeyInfo::from_pem(&simcore::pem_encode("PUBLIC KEY", &sk.sim.spki))?
+                        } else {
+                            rcgen::SubjectPublicKeyInfo::from_der(&sk.sim.spki)?
+                        };
+                        #[cfg(not(feature = "pem"))]
                         let spki = rcgen::SubjectPublicKeyInfo::from_der(&sk.sim.spki)?;
                         params.signed_by(&spki, &iss.cert, &ik.kp)
                     }),
@@ -416,6 +424,13 @@ impl World {
                     own_key: None,
                 });
                 let r = guarded(|| {
+                    #[cfg(feature = "pem")]
+                    let parsed = if recipe.not_after & 1 == 1 {
+                        rcgen::CertificateSigningRequestParams::from_pem(&csr.pem()?)?
+                    } else {
+                        rcgen::CertificateSigningRequestParams::from_der(csr.der())?
+                    };
+                    #[cfg(not(feature = "pem"))]
                     let parsed = rcgen::CertificateSigningRequestParams::from_der(csr.der())?;
                     parsed.signed_by(&iss.cert, &ik.kp)
                 });
@@ -482,7 +497,17 @@ impl World {
                     res.ret = Ret::Skipped("issuer name not importable");
                     return res;
                 }
-                let imported = match guarded(|| rcgen::CertificateParams::from_ca_cert_der(iss.cert.der())?.self_signed(&ik.kp)) {
+                let imported = match guarded(|| {
+                    #[cfg(feature = "pem")]
+                    let p = if recipe.not_after & 1 == 1 {
+                        rcgen::CertificateParams::from_ca_cert_pem(&iss.cert.pem())?
+                    } else {
+                        rcgen::CertificateParams::from_ca_cert_der(iss.cert.der())?
+                    };
+                    #[cfg(not(feature = "pem"))]
+                    let p = rcgen::CertificateParams::from_ca_cert_der(iss.cert.der())?;
+                    p.self_signed(&ik.kp)
+                }) {
                     Ok(Ok(c)) => c,
                     Ok(Err(e)) => {
                         res.ret = Ret::Err(format!("import:{}", err_name(&e)));
